@@ -1148,7 +1148,9 @@ impl<R: RefCounter, PR: PathRefCounter, H: Header> Memory<R, PR, H> {
 #[inline]
 fn header_meta<H>(reserved: usize, unify: bool) -> (usize, usize) {
   if unify {
-    let offset = align_offset::<H>(reserved as u32) as usize + mem::align_of::<H>();
+    // in `usize`: a reserved size in the last bytes below `u32::MAX` must not wrap around
+    let align = mem::align_of::<H>();
+    let offset = ((reserved + align - 1) & !(align - 1)) + align;
     (offset, offset + mem::size_of::<H>())
   } else {
     (reserved + 1, reserved + 1)
